@@ -59,9 +59,25 @@ def run(ctx):
         res = [dstr(_resolve_local(cn, a)) for a in e['args'][:2]]
         ctx.check('C03.G1', 'Edge::order_only_deps_' in res[1] and 'begin()' in res[0], cn.name,
                   'CleanNode:find_if-range', cn.where(e), 'the "all inputs clean" test covers [begin, end - order_only): %s' % res)
+    for e in fi:
+        # what counts as "dirty" in that test is Node::dirty itself (or a trivial wrapper of it)
+        fns_ = [x.get('n') or x.get('name') or '' for x in walk(e['args'][2]) if isinstance(x, dict) and x.get('k') in ('fn', 'fnref')]
+        lam = [x for x in walk(e['args'][2]) if isinstance(x, dict) and x.get('k') == 'lambda']
+        def is_dirty_pred(n):
+            if n.startswith('Node::dirty'):
+                return True
+            tgt = prog.functions.get(n) or (prog.by_name.get(n.split('(')[0]) or [None])[0]
+            if tgt is None:
+                return False
+            w = prog.trivial_wrapper(tgt) if hasattr(prog, 'trivial_wrapper') else None
+            rets = [r for r in tgt.events('ret')]
+            return len(rets) == 1 and len(tgt.blocks) <= 3 and 'Node::dirty_' in dstr(rets[0].get('e')) and \
+                dstr(strip(rets[0].get('e'))).count('.') <= 1
+        ctx.check('C03.G1', bool(fns_) and not lam and all(is_dirty_pred(n) for n in fns_), cn.name, 'CleanNode:all-clean-predicate', cn.where(e),
+                  'the "all inputs clean" test asks Node::dirty() of every regular input (predicate: %s)' % (fns_ or 'lambda'))
     ctx.check('C03.G1', nl >= 1 and len(fi) == 1 and n >= 2, cn.name, 'CleanNode:shape', cn.loc,
               'CleanNode has its all-clean test and most-recent-input loop')
-    ctx.floor('C03.G1', 8)
+    ctx.floor('C03.G1', 9)
 
     # ---- G2: generator exemption ------------------------------------------------------------------
     R('C03.G2', 'G', 'a changed command line or a missing log entry does not dirty a generator '
